@@ -245,6 +245,15 @@ func metricGen() *rapid.Generator[*gostatsd.Metric] {
 func TestTagStage(t *testing.T) {
 	rapid.Check(t, func(t *rapid.T) {
 		specs := rapid.SliceOfN(filterGen(), 0, 4).Draw(t, "filters")
+		// a long filter list: the drawn filters come after 60..130 filters that no generated metric satisfies (the number of filters
+		// is not bounded by the configuration)
+		if k := rapid.SampledFrom([]int{0, 0, 0, 0, 0, 0, 0, 60, 63, 64, 65, 130}).Draw(t, "filters-ahead"); k > 0 {
+			pad := make([]filterSpec, k, k+len(specs))
+			for i := range pad {
+				pad[i] = filterSpec{MatchMetrics: []string{fmt.Sprintf("no.such.metric.%d", i)}, DropTags: []string{"regex:.*"}, DropHost: true}
+			}
+			specs = append(pad, specs...)
+		}
 		var filters []statsd.Filter
 		for _, s := range specs {
 			filters = append(filters, statsd.Filter{MatchMetrics: toList(s.MatchMetrics), ExcludeMetrics: toList(s.ExcludeMetrics), MatchTags: toList(s.MatchTags), DropTags: toList(s.DropTags), DropMetric: s.DropMetric, DropHost: s.DropHost})
